@@ -35,7 +35,9 @@ WIRING = [([], 443, 443), (["-m"], 443, 8080), (["-m", "443:8081"], 443, 8081), 
           (["-p", "8443", "-m", "443:8081"], 8443, 8080), (["-p", "8443"], 8443, 8443),
           # the defaults stay selected when -p adds ports
           ([], 44330, 44330), (["-p", "8443"], 44330, 44330), (["-p", "8443", "9443"], 443, 443), (["-p", "8443", "9443"], 9443, 9443),
-          (["-p", "8443", "-m", "8443:9000"], 44330, 8080)]
+          (["-p", "8443", "-m", "8443:9000"], 44330, 8080),
+          # a pair that maps a port to itself is an entry like any other: the port is listed, so it is not sent to 8080
+          (["-p", "8443", "-m", "8443:8443,", "443:9000"], 8443, 8443)]
 
 
 def bounds(tier):
@@ -207,6 +209,7 @@ ARG_CASES = [
     (["-m", "443:8081", "8443:9000"], False, {443: 8081, 8443: 9000}), (["-m", "443:8081,", "8443:9000,"], False, {443: 8081, 8443: 9000}),
     (["-p", "8443", "4433", "-m", "8443:1"], False, {8443: 1}), (["-p", "8443"], True, {}),
     (["-m", "443:8081", "443:8082"], False, {443: 8082}),
+    (["-p", "8443", "-m", "8443:8443", "443:9000"], False, {8443: 8443, 443: 9000}), (["-m", "443:443"], False, {443: 443}),
 ]
 
 
